@@ -367,6 +367,9 @@ func TestC03(t *testing.T) {
 			if rp, err := DecodePatch(patch); err == nil && rp.Header.Compression.Algorithm == pwr.CompressionAlgorithm_NONE {
 				for i, fs := range rp.Files {
 					multi := len(fs.Ctrl) >= 2 || (len(fs.Ops) >= 3)
+					if whitelist != nil && !whitelist[int64(i)] {
+						continue // a skipped file's series is read without offering checkpoints
+					}
 					if multi {
 						Violation(rt, "C03/no-checkpoint-offered", "consumer always asked to save, patch is uncompressed and file %d has a series of %d messages, yet no checkpoint was offered (%s)", i, len(fs.Ops)+len(fs.Ctrl), cfg)
 						return
